@@ -564,7 +564,10 @@ Cfg draw(uint64_t seed, uint64_t index) {
     // thorough tier and rarely; the quick tier uses 512 (16 MB per worker).
     // Measured here: with 512 the workers of one pool spend seconds building those blocks on a loaded machine
     // (stop() then waits for workers that have not even reached their loop), so the usual "large" value is 64.
-    int large = thorough ? int(r.pick<int>({64, 64, 64, 64, 512, 512, 4096})) : 64;
+    // 4096 was dropped after a thorough run: under TSan on a loaded machine the workers of one pool needed more than
+    // the 30 s grace period just to build their blocks (no task can run meanwhile), which the stuck rule cannot tell
+    // from a hang
+    int large = thorough ? int(r.pick<int>({64, 64, 64, 64, 64, 512})) : 64;
     c.lcap = int(r.pick<int>({0, 1, 4, large, large}));
     c.steal = r.chance(1, 2);
     c.balance = int(r.pick<int>({-1, -1, 0, 1000}));
@@ -726,11 +729,8 @@ int main(int argc, char** argv) {
     if (!w) return "";
     std::string o = vf::fmt("tasks allocated=%u ran=%lu stop_called=%d stop_returned=%d\n", w->next.load(),
                             (unsigned long)w->ran_total.load(), int(w->stop_called.load()), int(w->stop_returned.load()));
-    if (w->pool) {
-      auto& g = w->pool->_global_task_queue;
-      o += vf::fmt("global queue{push=%zu pop=%zu cap=%zu} threads=%zu running=%d\n", g._next_push_index.load(),
-                   g._next_pop_index.load(), g.capacity(), w->pool->_threads.size(), int(w->pool->_running.load()));
-    }
+    // (the pool object itself is not inspected here: the episode thread owns and resets it, and a dump racing with
+    //  that reset was reported by TSan instead of the verdict in a thorough run)
     return o;
   };
   if (a.mode == "storm") {  // before the watchdog thread exists (it reads these members)
